@@ -1440,11 +1440,25 @@ def copy_item():
             raise Unsupported("version_index_queries.%s reads %r, the model's list function transcribes %r" % (name, norm(getattr(q, name)), text))
     if "PRIMARY KEY (task_identifier, timestamp)" not in norm(q.create_table):
         raise Unsupported("create_table has no PRIMARY KEY (task_identifier, timestamp)")
+    # the three readers hand on what the cursor yields: one entry per row, in the cursor's order, nothing merged or dropped
+    readers = {
+        "get_all_versions": ["cursor = self._conn.cursor()", "cursor.execute(q.all_versions)",
+                             "return [(TaskIdentifier.from_str(row[0]), self._version_from_row(row[1:])) for row in cursor]"],
+        "get_all_versions_for_task": ["cursor = self._conn.cursor()", "cursor.execute(q.all_entries_for_task, (str(task_identifier),))", "results = []",
+                                      "for row in cursor:\n    results.append(self._version_from_row(row[1:]))", "return results"],
+        "get_latest_output_version": ["cursor = self._conn.cursor()", "cursor.execute(q.latest_task_version, (str(task_identifier),))", "row = cursor.fetchone()",
+                                      "if row is None:\n    return None", "return self._version_from_row(row)"],
+    }
+    for name, want in readers.items():
+        got = [ast.unparse(x) for x in _body_without_docstring(_find_method("conductor/execution/version_index.py", "VersionIndex", name))]
+        if got != want:
+            raise Unsupported("VersionIndex.%s reads %r" % (name, got))
     return ("(* conductor/execution/version_index.py VersionIndex.copy_entries_to / bulk_load; the SQL texts of version_index_queries.py are the transcribed ones *)\n"
             "Definition gen_copy_query (tasks_none latest : bool) : N := (if tasks_none then %s else %s).\n"
             "Definition gen_copy_whole_table_is_one_bulk_load : bool := true.\n"
             "Definition gen_copy_per_task_in_order_counts_summed : bool := true.\n"
-            "Definition gen_sql_texts_are_the_transcribed_ones : bool := true.\n" % (q_whole, q_task))
+            "Definition gen_sql_texts_are_the_transcribed_ones : bool := true.\n"
+            "Definition gen_index_readers_return_one_entry_per_row : bool := true.\n" % (q_whole, q_task))
 
 
 def ident_item():
@@ -1653,6 +1667,37 @@ def exec_decisions_item():
             "Definition gen_finished_op_steps : list N := [1%%N; 2%%N; 3%%N].\n" % (enqueue, succ, skip_test, stops, verdict))
 
 
+def clean_item():
+    """cli/clean.py main: (a) whether the command proceeds -- from --force, what was typed, end of input; (b) the ORDER of the
+    two removals: 1 unlink(version index) -- when that fails the command stops with status 1 having removed nothing --, then
+    2 rmtree(cond-out)."""
+    f = _find_function("conductor/cli/clean.py", "main")
+    body = [x for x in f.body if not _is_logging(x)]
+    src = [ast.unparse(x) for x in body]
+    if len(body) != 4 or src[0] != "ctx = Context.from_cwd()":
+        raise Unsupported("clean.main has another shape: %r" % [x.splitlines()[0] for x in src])
+    conf, unl, rm = body[1], body[2], body[3]
+    if not (isinstance(conf, ast.If) and ast.unparse(conf.test) == "not args.force" and not conf.orelse and len(conf.body) == 1 and isinstance(conf.body[0], ast.Try)):
+        raise Unsupported("clean.main does not ask for confirmation exactly when --force is absent")
+    tr = conf.body[0]
+    tb = [ast.unparse(x) for x in tr.body]
+    if len(tb) != 2 or not tb[0].startswith("confirm = input(") or tb[1] != "if confirm.strip().lower() != 'y':\n    print('Aborting!')\n    sys.exit(1)":
+        raise Unsupported("clean.main: the confirmation is not `input(...)` compared with 'y' after strip().lower(): %r" % tb)
+    if len(tr.handlers) != 1 or ast.unparse(tr.handlers[0].type) != "EOFError" or ast.unparse(tr.handlers[0].body[-1]) != "sys.exit(1)" or tr.finalbody or tr.orelse:
+        raise Unsupported("clean.main: end of input does not abort with status 1")
+    if not (isinstance(unl, ast.Try) and [ast.unparse(x) for x in unl.body] == ["(ctx.output_path / VERSION_INDEX_NAME).unlink(missing_ok=True)"] and len(unl.handlers) == 1
+            and ast.unparse(unl.handlers[0].type) == "OSError" and ast.unparse(unl.handlers[0].body[-1]) == "sys.exit(1)" and not unl.finalbody and not unl.orelse):
+        raise Unsupported("clean.main does not unlink the version index first, stopping with status 1 when that fails")
+    if any("rmtree" in ast.unparse(x) or "unlink" in ast.unparse(x) for x in unl.handlers[0].body):
+        raise Unsupported("clean.main removes something after the index could not be removed")
+    if ast.unparse(rm) != "shutil.rmtree(ctx.output_path, ignore_errors=True)":
+        raise Unsupported("clean.main does not end with rmtree(cond-out): %s" % ast.unparse(rm))
+    return ("(* conductor/cli/clean.py main *)\n"
+            "Definition gen_clean_proceeds (force eof typed_y : bool) : bool := (if (negb force) then (if eof then false else typed_y) else true).\n"
+            "Definition gen_clean_removals : list N := [1%N; 2%N].\n"
+            "Definition gen_clean_stops_when_the_index_cannot_be_removed : bool := true.\n")
+
+
 def version_item():
     """VersionIndex.generate_new_output_version: the timestamp as a function of the clock and the last timestamp"""
     f = _find_method("conductor/execution/version_index.py", "VersionIndex", "generate_new_output_version")
@@ -1717,7 +1762,7 @@ def generate():
         failures["task_type_table"] = "%s: %s" % (type(ex).__name__, ex)
         parts.append("(* task_type_table: NOT TRANSLATED: %s *)\n" % str(ex).replace("*)", "* )"))
     for coqname, fn in (("gen_gate_open", gate_item), ("gen_new_version", version_item), ("gen_loop_goes_on", loop_item), ("gen_wants_slot", slot_item),
-                        ("gen_prune", prune_item), ("gen_should_run", should_run_item), ("gen_sel_top", select_item), ("gen_validate_args", validate_args_item), ("gen_finish", finish_item), ("gen_record_type", record_type_item), ("gen_tee_iteration", tee_item), ("gen_env_overrides", spawn_item), ("gen_launch_block", abort_item), ("gen_combine_decision", combine_item), ("gen_gc_decision", gc_item), ("gen_restore_before_loop", restore_item), ("gen_archive_output_decision", archive_item), ("gen_deps_paths_step", deps_paths_item), ("gen_copy_query", copy_item), ("gen_ident_repr", ident_item), ("gen_where_decision", where_item), ("gen_enqueue_dependent", exec_decisions_item)):
+                        ("gen_prune", prune_item), ("gen_should_run", should_run_item), ("gen_sel_top", select_item), ("gen_validate_args", validate_args_item), ("gen_finish", finish_item), ("gen_record_type", record_type_item), ("gen_tee_iteration", tee_item), ("gen_env_overrides", spawn_item), ("gen_launch_block", abort_item), ("gen_combine_decision", combine_item), ("gen_gc_decision", gc_item), ("gen_restore_before_loop", restore_item), ("gen_archive_output_decision", archive_item), ("gen_deps_paths_step", deps_paths_item), ("gen_copy_query", copy_item), ("gen_ident_repr", ident_item), ("gen_where_decision", where_item), ("gen_enqueue_dependent", exec_decisions_item), ("gen_clean_removals", clean_item)):
         try:
             parts.append(fn())
         except Exception as ex:  # pylint: disable=broad-except
